@@ -167,7 +167,7 @@ SX, SY, SZ, SW = ('tok', 'X'), ('tok', '_Y'), ('lit', 'z'), ('re', 'w')
 SHAPE_TERMS = (Term('X', (('str', 'x', ''),)), Term('_Y', (('str', 'y', ''),)))
 
 
-def shape_menu(a):
+def shape_menu(a, SZ=SZ):
     """Items of the start body; `a` is the helper reference item (('ref','a') / ('ref','_a') / template use)."""
     m = []
     for t in (SX, a):
@@ -180,13 +180,15 @@ def shape_menu(a):
         ('star', ('group', ((SX,), (SY, a)))), ('opt', ('group', ((SX, SY),))), ('group', ((SX,), (SZ,))),
         ('maybe', ((SW, SX),)), ('maybe', ((('opt', SX), SZ),)), ('opt', ('maybe', ((SX,),))),
         ('plus', ('group', ((SZ, a),))), ('maybe', ((SZ,),)), ('maybe', ((('rep', SX, 1, 2),),)),
+        ('plus', SZ), ('star', SZ),
     ]
     return m
 
 
-def shape_helpers(self_ref):
+def shape_helpers(self_ref, SZ=SZ):
     """Helper bodies as (alternatives with alias): the alias variants are dropped for '_' spellings (not allowed)."""
     return [
+        (((('plus', SZ), SX), None),),
         (((SX,), None),),
         (((SX, SZ), None), ((SY,), 'ali')),
         (((SZ, ('opt', SX)), None),),
@@ -202,7 +204,10 @@ class SHAPE:
     """index = ((body index) * n_helpers + helper) * n_spellings + spelling"""
     SPELL = (('a', ''), ('_a', ''), ('a', '?'), ('a', '!'), ('t', 'T'), ('_t', 'T'))    # 'T' = template t{p} used as t{X}
 
-    def __init__(self, n, spellings=None, ignore=(), extra_terms=(), body_filter=None):
+    def __init__(self, n, spellings=None, ignore=(), extra_terms=(), zlit='z'):
+        """zlit: the anonymous string literal of the menu; 'x' makes it coincide with the named terminal X (one
+        terminal used by name -- kept -- and as a literal -- filtered)."""
+        self.SZ = ('lit', zlit)
         self.spell = spellings or self.SPELL
         self.n = n
         nm = len(shape_menu(('ref', 'a')))
@@ -225,7 +230,7 @@ class SHAPE:
             self_ref = ('tmpl', name, (('ref', 'p'),))
         else:
             aitem = self_ref = ('ref', name)
-        menu = shape_menu(aitem)
+        menu = shape_menu(aitem, self.SZ)
         body = tuple(menu[i] for i in self.bodies[b])
         uses = any(it == aitem for it in gram.items_of(body))
         if not uses:
@@ -233,7 +238,7 @@ class SHAPE:
                 return None
             rules = [Rule('start', '', None, ((body, None),))]
             return Grammar(rules, SHAPE_TERMS + self.extra_terms, self.ignore)
-        alts = shape_helpers(self_ref)[h]
+        alts = shape_helpers(self_ref, self.SZ)[h]
         if name.startswith('_'):
             if any(al for _, al in alts):
                 return None         # aliases are not allowed on inlined rules
